@@ -12,6 +12,7 @@ inductive Err
   | index   -- IndexError
   | key     -- KeyError
   | type    -- TypeError
+  | recursion  -- RecursionError (a model with recursion fuel: the fuel is used up)
 deriving DecidableEq, Repr
 
 /-! ### sorted search with re-check (`argsort` + `searchsorted(…, sorter=i)` + `!=`) -/
